@@ -362,16 +362,31 @@ def _ttensor_case(draw, tier):
         sc = gen.sparse_case_from_dense(core)
         n = len(sc["subs"])
         c["core_perm"] = list(draw(st.permutations(range(n)))) if n > 1 else list(range(n))
+    # factor matrices handed over as scipy COO matrices (the constructor documents both); zero-heavy so that the
+    # sparse core's ttm result stays sparse and full() has to densify it
+    c["sparse_factors"] = draw(st.booleans()) and draw(st.booleans())
+    if c["sparse_factors"]:
+        for f in c["factors"]:
+            for row in f:
+                keep = draw(st.lists(st.booleans(), min_size=len(row), max_size=len(row)))
+                for j, k in enumerate(keep):
+                    if not k:
+                        row[j] = 0.0
     return c
 
 
 def build_ttensor(case):
-    if not case.get("sparse_core"):
-        return gen.build_ttensor(case)
+    from scipy import sparse
+
     core = gen.arr_F(case["cshape"], case["core"])
     fm = [np.array(f, dtype=float).reshape(s, c) for f, s, c in zip(case["factors"], case["shape"], case["cshape"])]
-    sc = gen.sparse_case_from_dense(core, case.get("core_perm"))
-    return ttb.ttensor(gen.build_sptensor(sc), fm)
+    if case.get("sparse_factors"):
+        fm = [sparse.coo_matrix(f) for f in fm]
+    if case.get("sparse_core"):
+        C = gen.build_sptensor(gen.sparse_case_from_dense(core, case.get("core_perm")))
+    else:
+        C = ttb.tensor(core.copy(order="F"), tuple(case["cshape"]))
+    return ttb.ttensor(C, fm)
 
 
 @cell("C01/ttensor/full", strategy=_ttensor_case, quick=400, thorough=8000)
@@ -379,7 +394,8 @@ def ttensor_full(ctx, case):
     A, B = _tt_ref(case)
     T = build_ttensor(case)
     ctx.label(*gen.shape_classes(case["shape"]), "sparse-core" if case["sparse_core"] else "dense-core",
-              "v-" + case["vkind"], "core-" + ("1" if ref.prod(case["cshape"]) == 1 else "n"))
+              "v-" + case["vkind"], "core-" + ("1" if ref.prod(case["cshape"]) == 1 else "n"),
+              "coo-factors" if case.get("sparse_factors") else "ndarray-factors")
     ctx.nt = _nt_array(A)
     cmp = _cmp_sum(A, B, ref.prod(case["cshape"]), case["vkind"] == "int")
     ctx.check(tup(T.shape) == A.shape and T.ndims == A.ndim, "ttensor-shape", T.shape)
@@ -725,52 +741,7 @@ def tenmat_ktensor(ctx, case):
 # --------------------------------------------------------------------------
 
 
-def sptenmat_problems(M):
-    """Ways in which M is not a well-formed sptenmat ([] if none)."""
-    if not isinstance(M, ttb.sptenmat):
-        return [f"not-sptenmat:{type(M).__name__}"]
-    out = []
-    ts = _shape_of_t(M.tshape)
-    rd, cd = _ints(M.rdims), _ints(M.cdims)
-    if ts is None or rd is None or cd is None:
-        return ["tshape/rdims/cdims-not-integer-vectors"]
-    if sorted(rd + cd) != list(range(len(ts))):
-        out.append("rdims+cdims-not-a-partition")
-        return out
-    for name, d in (("rdims", M.rdims), ("cdims", M.cdims)):
-        if isinstance(d, np.ndarray) and d.size and not np.issubdtype(d.dtype, np.integer):
-            out.append(f"{name}-dtype-{d.dtype}")
-    shape2 = (ref.prod(ts[d] for d in rd), ref.prod(ts[d] for d in cd))
-    try:
-        if tuple(int(v) for v in M.shape) != shape2:
-            out.append(f"shape-{tuple(M.shape)}-vs-{shape2}")
-    except Exception as e:  # noqa: BLE001
-        out.append(f"shape-raises-{type(e).__name__}")
-    subs, vals = M.subs, M.vals
-    if not isinstance(subs, np.ndarray) or not isinstance(vals, np.ndarray):
-        return out + ["subs/vals-not-ndarray"]
-    n = 0 if subs.size == 0 else subs.shape[0]
-    if subs.size:
-        if subs.ndim != 2 or subs.shape[1] != 2:
-            return out + [f"subs-shape-{subs.shape}"]
-        if not np.issubdtype(subs.dtype, np.integer):
-            out.append(f"subs-dtype-{subs.dtype}")
-        if (subs < 0).any() or (subs[:, 0] >= shape2[0]).any() or (subs[:, 1] >= shape2[1]).any():
-            out.append("subs-out-of-shape")
-        if len({(int(r[0]), int(r[1])) for r in subs}) != n:
-            out.append("duplicate-subscripts")
-    if vals.size and (vals.ndim != 2 or vals.shape[1] != 1):
-        out.append(f"vals-shape-{vals.shape}")
-    if vals.size != n:
-        out.append(f"one-value-per-subscript:{n}-subs-{vals.size}-vals")
-    try:
-        if M.nnz != n:
-            out.append(f"nnz-{M.nnz}-vs-stored-{n}")
-    except Exception as e:  # noqa: BLE001
-        out.append(f"nnz-raises-{type(e).__name__}")
-    if vals.size and (vals == 0).any():
-        out.append("explicit-zero-stored")
-    return out
+from ._spwf import sptenmat_problems  # noqa: E402
 
 
 def _check_sptenmat(ctx, M, A, rd, cd, what):
